@@ -104,6 +104,22 @@ def installed(sim, durations=(), warn_raises=False):
              (pb, "get_memmapping_executor", pb.get_memmapping_executor), (jp, "warnings", jp.warnings),
              (pb, "warnings", pb.warnings), (pb, "gc", pb.gc)]
     jp.time = parsim.SimTime(sim, jp.time)
+    # Threads started by joblib.parallel itself (the detached _GeneratorExitThread of a generator closed / collected in
+    # a foreign thread) do not run on their own: the harness decides when (run_deferred).
+    real_threading = jp.threading
+    sim.deferred = []
+
+    class _DeferredThread(real_threading.Thread):
+        def start(self):
+            sim.deferred.append(self)
+
+    class _ThreadingShim:
+        Thread = _DeferredThread
+
+        def __getattr__(self, name):
+            return getattr(real_threading, name)
+    saved.append((jp, "threading", real_threading))
+    jp.threading = _ThreadingShim()
     pb.ThreadPool = lambda n, *a, **k: parsim.SimPool(sim, n)
     pb.MemmappingPool = lambda n, *a, **k: parsim.SimPool(sim, n)
     state = {"executor": None, "kill_at": None, "n_executors": 0}
@@ -251,6 +267,7 @@ def run(cfg, sched):
     durations = list(cfg.get("durations", ()))
 
     out.leftovers = []
+    out.detached_errors = []
     out.hooks = cfg.get("hooks", {})
     sim.meta_fn = lambda: len(out.calls)          # how many calls had finished when a batch was submitted
 
@@ -303,6 +320,9 @@ def run(cfg, sched):
             with ctx:
                 for call_no, c in enumerate(cfg["calls"]):
                     rec = {"call": call_no, "result": None, "exc": None, "taken_before": len(out.iter_log)}
+                    if c.get("run_deferred_before"):
+                        run_deferred(sim, out)
+                    rec["deferred_pending_at_start"] = len(sim.deferred)
                     tasks = (SizedTasks if c.get("has_len") else Tasks)(
                                   sim, call_no, c["n_tasks"], task, c.get("iter_fail_at"), out.iter_log,
                                   slow_at=c.get("slow_at"),
@@ -322,6 +342,7 @@ def run(cfg, sched):
                     rec["taken_total"] = tasks.i
                     rec["events_at_end"] = len(sim.events)
                     out.calls.append(rec)
+            run_deferred(sim, out)           # a detached thread that has not had the CPU yet runs at the latest now
             sim.drain()
             out.hang = None
         except parsim.SimHang as e:
@@ -331,6 +352,18 @@ def run(cfg, sched):
             out.steps = sim.steps
             sim.shutdown()
     return out
+
+
+def run_deferred(sim, out):
+    """Run the bodies of the threads joblib.parallel started (in start order), in the current logical thread."""
+    while sim.deferred:
+        t = sim.deferred.pop(0)
+        try:
+            t.run()
+        except BaseException as e:
+            if isinstance(e, (parsim.SimHang, parsim.SimStop)):
+                raise
+            out.detached_errors.append("%s: %s" % (type(e).__name__, e))
 
 
 def consume(sim, p, holder, c, rec, out):
@@ -372,6 +405,46 @@ def consume(sim, p, holder, c, rec, out):
             gen.close()
         except Warning as e:          # warnings turned into errors
             rec["close_raised"] = repr(e)
+    elif end == "close_other_thread":
+        # the generator is closed (collected) by a thread that is not the one that called Parallel: joblib detaches the
+        # abort to a thread of its own.  c["deferred_at"]: None = that thread runs to completion before anything else
+        # happens; k = it only gets the CPU k switch points later (possibly inside the next call), while the caller's
+        # thread holds no lock.
+        import threading as _threading
+        box = {}
+
+        def _close():
+            try:
+                gen.close()
+            except BaseException as e:          # noqa
+                box["exc"] = e
+        th = _threading.Thread(target=_close, name="foreign-closer")
+        th.start()
+        th.join()
+        if "exc" in box:
+            if isinstance(box["exc"], (parsim.SimHang, parsim.SimStop)):
+                raise box["exc"]
+            rec["close_raised"] = repr(box["exc"])
+        rec["detached_threads"] = len(sim.deferred)
+        k = c.get("deferred_at")
+        if k is None:
+            run_deferred(sim, out)
+        else:
+            target = sim.steps + k
+            prev = sim.on_switch_point
+            busy = [False]
+
+            def _hook(sim_, tag):
+                if prev is not None:
+                    prev(sim_, tag)
+                if sim_.deferred and not busy[0] and sim_.steps >= target and sim_.current is sim_.main \
+                        and sim_.lock_owner is None:
+                    busy[0] = True
+                    try:
+                        run_deferred(sim_, out)
+                    finally:
+                        busy[0] = False
+            sim.on_switch_point = _hook
     elif end == "drop":
         del it
         del gen
